@@ -429,6 +429,22 @@ type lcServer struct {
 	silent  map[string]bool           // id -> never reply
 	onRecv  func(id string, conn int) // called (outside the lock) when a request has been read
 	allOpen bool
+	// overlaps: a request read on a connection while the reply to an earlier request of that connection was still
+	// owed (withheld by a gate, or never sent): two exchanges in flight on one connection
+	overlaps []lcOverlap
+	// the negotiation is answered with a version the client does not have: Dial fails on a healthy connection
+	noCommonVersion atomic.Bool
+}
+
+type lcOverlap struct {
+	conn      int
+	owed, new string
+}
+
+func (s *lcServer) overlapList() []lcOverlap {
+	s.mu.Lock()
+	defer s.mu.Unlock()
+	return append([]lcOverlap(nil), s.overlaps...)
 }
 
 func newLcServer() *lcServer {
@@ -509,6 +525,7 @@ func (s *lcServer) serve(lc *lcConn, c net.Conn) {
 		pending.Wait()
 	}()
 	st := ttlv.NewStream(c, -1)
+	owed := map[string]bool{} // requests of this connection read and not yet answered (guarded by s.mu)
 	for {
 		req := new(kmip.RequestMessage)
 		if err := st.Recv(req); err != nil {
@@ -520,11 +537,17 @@ func (s *lcServer) serve(lc *lcConn, c net.Conn) {
 			item := kmip.ResponseBatchItem{Operation: bi.Operation, UniqueBatchItemID: bi.UniqueBatchItemID, ResultStatus: kmip.ResultStatusSuccess}
 			switch pl := bi.RequestPayload.(type) {
 			case *payloads.ActivateRequestPayload:
-				id = pl.UniqueIdentifier
+				if id == "" {
+					id = pl.UniqueIdentifier // a batch call is known by the identifier of its first item
+				}
 				item.ResponsePayload = &payloads.ActivateResponsePayload{UniqueIdentifier: pl.UniqueIdentifier}
 			case *payloads.DiscoverVersionsRequestPayload:
 				id = "discover"
-				item.ResponsePayload = &payloads.DiscoverVersionsResponsePayload{ProtocolVersion: []kmip.ProtocolVersion{kmip.V1_4, kmip.V1_3, kmip.V1_2, kmip.V1_1, kmip.V1_0}}
+				vs := []kmip.ProtocolVersion{kmip.V1_4, kmip.V1_3, kmip.V1_2, kmip.V1_1, kmip.V1_0}
+				if s.noCommonVersion.Load() {
+					vs = []kmip.ProtocolVersion{{ProtocolVersionMajor: 9, ProtocolVersionMinor: 9}}
+				}
+				item.ResponsePayload = &payloads.DiscoverVersionsResponsePayload{ProtocolVersion: vs}
 			default:
 				item.ResultStatus = kmip.ResultStatusOperationFailed
 				item.ResultReason = kmip.ResultReasonOperationNotSupported
@@ -536,6 +559,15 @@ func (s *lcServer) serve(lc *lcConn, c net.Conn) {
 		g := s.gates[id]
 		silent := s.silent[id]
 		cb := s.onRecv
+		// a request that arrives while the reply to an earlier request of the same connection is still owed
+		for o := range owed {
+			if o != id {
+				s.overlaps = append(s.overlaps, lcOverlap{lc.idx, o, id})
+			}
+		}
+		if g != nil || silent {
+			owed[id] = true
+		}
 		s.mu.Unlock()
 		if cb != nil {
 			cb(id, lc.idx)
@@ -548,6 +580,9 @@ func (s *lcServer) serve(lc *lcConn, c net.Conn) {
 			go func() {
 				defer pending.Done()
 				<-g
+				s.mu.Lock()
+				delete(owed, id) // from here on the reply is on its way: the next request may follow it at once
+				s.mu.Unlock()
 				sendMu.Lock()
 				_ = st.Send(resp)
 				sendMu.Unlock()
